@@ -187,6 +187,35 @@ def main(tier):
                                    'detail': 'thread A preempted after %d package lines of a print of never-printed classes, '
                                              'thread B printed the same values meanwhile: a thread raised or returned another text' % k,
                                    'results': [str(x)[:300] for x in res], 'expected': ref[0][:300]})
+        # two preemptions around values with long strings: A stops after i lines, B after j lines, A finishes, B
+        # finishes - i and j drawn from the points where a line of the package runs for the first or second time
+        r2 = rng(PROP + '/double')
+        ndouble = 0
+        pts = {}
+        for pair in range(sched.STRING_PAIRS):
+            pts[pair] = (sched.string_points(0, pair=pair), sched.string_points(1, pair=pair))
+        pts0, pts1 = pts[0][0][0], pts[0][1][0]
+        for k in range(480 if tier == 'quick' else 8000):
+            pair = k % sched.STRING_PAIRS
+            (q0, n0), (q1, n1) = pts[pair]
+            if k % 3 == 2:
+                i, j = r2.randrange(n0), r2.randrange(n1)
+            else:
+                i, j = r2.choice(q0), r2.choice(q1)
+            res, ref = sched.run_double_preemption(i, j, pair=pair)
+            letters = [outcome_letter(res[k], ref[k]) for k in range(2)]
+            ndouble += 1
+            run.count(1)
+            if any(x != 'P' for x in letters):
+                viol += 1
+                if viol <= 6:
+                    run.violation({'kind': 'double-preemption', 'i': i, 'j': j, 'pair': pair, 'outcomes': letters,
+                                   'detail': 'thread A preempted after %d package lines, thread B after %d, then A and B run to '
+                                             'their ends (two different values with long strings): a thread raised or '
+                                             'returned another text' % (i, j),
+                                   'results': [str(x)[:300] for x in res], 'expected': [x[:300] for x in ref]})
+        run.coverage['double_preemption_schedules'] = ndouble
+        run.coverage['double_preemption_points'] = [len(pts0), len(pts1)]
         run.coverage['single_preemption_points'] = nsweep
         run.coverage['distinct_lines_of_a_cold_print'] = len(firsts)
         dis = 0
@@ -214,7 +243,7 @@ def main(tier):
             'instance of a subclass of a built-in type (bounded and random schedules over the same lines); 2-3 threads printing values that SHARE sub-objects, gated on the line events of '
             '_run_pretty (where visits start and end): every single-preemption schedule up to 70 (thorough: 140) lines '
             'and seeded random interleavings; same or different widths per thread; 2-3 threads laying out different values, '
-            'gated on the line events of best_layout and both fitting predicates (seeded random interleavings, runs of '
+            '2 threads printing different values with long strings under two preemptions (A stops after i lines, B after j, A ends, B ends; 480 / 8000 seeded (i, j) over 4 pairs of values - string at top level / in a list / dict / nested - two thirds at points where a package line runs for the 1st or 2nd time, one third uniform); gated on the line events of best_layout and both fitting predicates (seeded random interleavings, runs of '
             '1..120 lines); 2-3 threads printing mixed values (split strings, comments, calls, shared objects) gated on EVERY '
             'line executed inside the package (seeded random interleavings, runs of 1..2000 lines); a sweep with ONE preemption at '
             'the first execution of every distinct package line of a print of never-printed classes (fresh namedtuple, tuple '
@@ -229,6 +258,11 @@ def replay(path):
     if 'schedule' not in p:
         print(json.dumps(p, indent=1)[:3000])
         return 1
+    if p.get('kind') == 'double-preemption':
+        res, ref = sched.run_double_preemption(p['i'], p['j'], pair=p.get('pair', 0))
+        letters = [outcome_letter(res[i], ref[i]) for i in range(2)]
+        print(letters, [str(x)[:150] for x in res])
+        return 0 if all(x == 'P' for x in letters) else 1
     if p.get('kind') == 'single-preemption':
         res, ref = sched.run_single_preemption(p['k'])
         letters = [outcome_letter(res[i], ref[i]) for i in range(2)]
